@@ -173,13 +173,16 @@ def r4_cancel(ctx, prog):
         takes = [st for st in c.stmts if st and _is_take(cls)(c, st)]
         erases = [st for st in c.stmts if st and q.is_call(st, fn='erase') and st.get('cls', '').startswith('std::deque<')]
         pool_frees = [st for st in c.stmts if st and q.is_call(st, fn='free', cls='tbox::ObjectPool<')]
-        if not finds or not takes or not erases:
-            raise AnalysisBroken('%s::cancel: find/free/erase events missing' % cls)
+        if not takes or not erases:
+            raise AnalysisBroken('%s::cancel: free/erase events missing' % cls)
+        if not finds:
+            ctx.ob('C05.R4', '%s|executing-first' % c.name, False, 'cancel() never consults the running set: a task that is executing is reported as not found / cancelled', where=c.loc(c.body))
         rets = {}
         for r in q.returns(c):
             rets.setdefault(q.return_const(c, r), []).append(r)
-        if 0 not in rets or 2 not in rets or 1 not in rets:
-            raise AnalysisBroken('%s::cancel: return codes 0/1/2 not all present' % cls)
+        if 0 not in rets or 1 not in rets:
+            raise AnalysisBroken('%s::cancel: return codes 0/1 not present' % cls)
+        rets.setdefault(2, [])
         for r in rets[0]:
             rp = q.pt(c, r)
             ok = any(c.cfg.dominates(q.pt(c, t), rp) for t in takes) and any(c.cfg.dominates(q.pt(c, e), rp) for e in erases) \
